@@ -27,7 +27,10 @@ class _BaseITML(MahalanobisMixin):
                     ' version 0.6.3 and will be removed in 0.7.0'
                     '', FutureWarning)
       tol = convergence_threshold
-    self.convergence_threshold = 'deprecated'  # Avoid errors
+      convergence_threshold = 'deprecated'
+    # (the object that was passed is kept when it is the sentinel: `clone`
+    # requires the constructor to store its arguments unmodified)
+    self.convergence_threshold = convergence_threshold  # Avoid errors
     self.gamma = gamma
     self.max_iter = max_iter
     self.tol = tol
@@ -370,9 +373,10 @@ class ITML_Supervised(_BaseITML, TransformerMixin):
                     ' version 0.6.3 and will be removed in 0.7.0'
                     '', FutureWarning)
       n_constraints = num_constraints
+      num_constraints = 'deprecated'
     self.n_constraints = n_constraints
     # Avoid test get_params from failing (all params passed sholud be set)
-    self.num_constraints = 'deprecated'
+    self.num_constraints = num_constraints
 
   def fit(self, X, y, bounds=None):
     """Create constraints from labels and learn the ITML model.
